@@ -150,6 +150,13 @@ def run_batch(R, graphs, tag, deadline):
     cert_ans = dict(zip(idx, lean_query(cert_lines))) if cert_lines else {}
     for i, (g, r) in enumerate(zip(graphs, flat)):
         judge(R, g, r, mcm_ans[i], cert_ans.get(i), tag)
+    # the faithful mirror (conversion, the mirrored Ford-Fulkerson Dfs.ffDfs, the read-out loop: C09_mcmMirror_correct) returns the SAME
+    # pairs in the same order as the code; WHICH maximum matching is returned is not part of the property, so this is model coverage
+    mir = lean_query([" ".join(["mcmmirror"] + flowlib.bip_tokens(g)) for g in graphs])
+    for g, r, a in zip(graphs, flat, mir):
+        if "M" in r:
+            exp = " ".join(["ok", str(len(r["M"]))] + [str(int(v)) for p in r["M"] for v in p])
+            R.glue("mirror:maximum_cardinality_matching_bipartite ordered pair list", exp == a, {"graph": g, "real": r["M"], "model": a})
 
 
 def corpus():
